@@ -373,8 +373,16 @@ def r11_9(run, model):
             if "MultilineStrExpr" not in S.norm_ws(run.facts.text(LOWER, arm["pat"]["sp"])):
                 continue
             found = True
-            trims = sorted({c["method"] for c in S.walk(arm["body"]) if c["k"] == "MethodCall" and c["method"].startswith("trim")
-                            and not (c["method"] == "trim_end_matches" and c["args"] and S.norm_ws(run.facts.text(LOWER, c["args"][0]["sp"])) == "'\\r'")})
+            trims = {c["method"] for c in S.walk(arm["body"]) if c["k"] == "MethodCall" and c["method"].startswith("trim")
+                     and not (c["method"] == "trim_end_matches" and c["args"] and S.norm_ws(run.facts.text(LOWER, c["args"][0]["sp"])) == "'\\r'")}
+            # the lines may be cut by an accessor of the CST node (cst/nodes.rs, impl MultilineStrExpr): what it trims counts as well
+            NODES = "crates/cst/src/nodes.rs"
+            acc = {g.name: g for g in model.fns(NODES) if g.impl == "MultilineStrExpr" and g.body is not None}
+            for c in S.walk(arm["body"]):
+                if c["k"] == "MethodCall" and c["method"] in acc:
+                    trims |= {x["method"] for x in S.walk(acc[c["method"]].body) if x["k"] == "MethodCall" and x["method"].startswith("trim")
+                              and not (x["method"] == "trim_end_matches" and x["args"] and S.norm_ws(run.facts.text(NODES, x["args"][0]["sp"])) == "'\\r'")}
+            trims = sorted(trims)
             bad = [t for t in trims if not t.startswith("trim_start")]
             run.ob("R11.9", "MultilineStrExpr|only leading indentation is stripped", not bad, site(LOWER, arm["sp"]),
                    f"trim calls on the line: {trims or 'none'}" + (f"; {bad} also remove the end of the line" if bad else ""),
@@ -769,6 +777,9 @@ def run(run, model):
     run.try_rule(c10.r10_1, model)
     run.try_rule(c10.r10_2, model)
     run.try_rule(r11_8, model)
+    # the tree a text denotes does not depend on how a name is capitalised: `let Limit = 3` binds a variable (shared with C05 R05.15)
+    from rules import c05 as _c05
+    run.try_rule(_c05.r05_15, model)
     run.try_rule(r11_9, model)
     run.try_rule(r11_12, model)
     run.try_rule(r11_14, model)
